@@ -497,7 +497,12 @@ func (r *rewriter) postSelect(x *ast.SelectStmt, stack []ast.Node) {
 		args = ", " + strings.Join(names, ", ")
 	}
 	r.replace(x.Pos(), x.Body.Lbrace+1, "{ "+pre.String()+label+"switch vs_.Select("+r.site(x.Pos())+", "+hd+args+") {")
-	r.replace(x.Body.Rbrace, x.Body.Rbrace+1, "}}")
+	closing := "}}"
+	if !hasDefault {
+		// keeps the statement terminating when every case of the select is (a select is, a switch without default is not)
+		closing = "default: panic(\"vs: select without default returned no case\") }}"
+	}
+	r.replace(x.Body.Rbrace, x.Body.Rbrace+1, closing)
 }
 
 func (r *rewriter) output(f *ast.File) string {
@@ -528,6 +533,8 @@ func main() {
 		harness  = flag.String("harness", "/verif/harness", "harness module directory")
 		hooksDir = flag.String("hooks", "/verif/hooks", "directory of //go:build verif accessor files")
 		plain    = flag.Bool("plain", false, "only add hooks and the vos shim, no concurrency rewriting of service")
+		extra    = flag.String("extra", "", "comma-separated import paths of additional packages to rewrite like service (idiom corpus)")
+		only     = flag.Bool("only-extra", false, "rewrite only the -extra packages")
 	)
 	flag.Parse()
 	if *outDir == "" {
@@ -542,6 +549,15 @@ func main() {
 	}
 	if *plain {
 		specs[0].imports = map[string]string{}
+	}
+	if *only {
+		specs = nil
+	}
+	for _, e := range strings.Split(*extra, ",") {
+		if e != "" {
+			specs = append(specs, pkgSpec{path: e, conc: true, imports: map[string]string{
+				"net": "verif/harness/vnet", "time": "verif/harness/vtime", "sync": "verif/harness/vsync"}})
+		}
 	}
 	cfg := &packages.Config{
 		Mode: packages.NeedName | packages.NeedFiles | packages.NeedCompiledGoFiles | packages.NeedSyntax |
